@@ -433,6 +433,23 @@ def gen_project(rng, profile="basic"):
         fixtures.append(fx)
         for n in fx_names(fx):
             reg.append((n, fx))
+    # several `pre_run` fixtures depending on one another, one of which fails in its setup AFTER others have been set up
+    # (run_suites' own loop: the ones already set up must still be torn down, once, in reverse order; the session is not
+    # run); the last one of the chain is used by a test below so that the whole chain is scheduled
+    chain = []
+    if cfg["kinds"] and rng.random() < cfg.get("p_prerun_chain", 0.07):
+        k = rng.choice([2, 2, 3])
+        bad = rng.randrange(1, k) if rng.random() < 0.85 else None       # the failing one is never the first
+        for j in range(k):
+            name = "f%d" % (nfx + j)
+            gen = rng.random() < 0.8
+            fx = {"name": name, "names": None, "scope": "pre_run", "per_thread": False,
+                  "params": [chain[-1]] if chain and rng.random() < 0.8 else [], "gen": gen,
+                  "setup": [{"a": "raise", "kind": rng.choice(cfg["kinds"])}] if j == bad else [],
+                  "teardown": [{"a": "raise", "kind": "exc"}] if gen and rng.random() < 0.15 else []}
+            fixtures.append(fx)
+            reg.append((name, fx))
+            chain.append(name)
     all_names = [n for n, _ in reg]
     suite_names = [n for n, g in reg if LEVEL[g["scope"]] >= LEVEL["suite"] and not g["per_thread"]]
     pt_names = [n for n, g in reg if g["per_thread"]]
@@ -549,6 +566,12 @@ def gen_project(rng, profile="basic"):
                "force_disabled": rng.random() < cfg["p_force"], "stop_on_failure": rng.random() < cfg["p_stop"]}
     if not any(True for _ in iter_tests(project)):
         suites[0]["tests"].append(dict(mk_test(), rank=1))
+    if chain:
+        enabled = [t for _, t, _, _, dis in iter_tests(project) if not dis] or [t for _, t, *_ in iter_tests(project)]
+        user = rng.choice(enabled)
+        for n in chain if rng.random() < 0.5 else chain[-1:]:
+            if n not in user["fixtures"]:
+                user["fixtures"].append(n)
     _disambiguate(project)
     # dependencies: edges only towards tests that come earlier in a random permutation (acyclic), which
     # gives forward references and cross-suite references
@@ -645,6 +668,16 @@ def features(project):
             f.add("test-uses-" + byname[n]["scope"])
             if byname[n]["per_thread"]:
                 f.add("test-uses-per_thread")
+    pre = [fx for fx in project["fixtures"] if fx["scope"] == "pre_run"]
+    if len(pre) >= 2:
+        f.add("pre_run-fixtures>=2")
+        if any(set(fx["params"]) & {n for g in pre for n in fx_names(g)} for fx in pre):
+            f.add("pre_run-fixture-depends-on-pre_run-fixture")
+        for j, fx in enumerate(pre):
+            if fx["setup"] and j > 0:
+                f.add("pre_run-setup-fails-after-another-pre_run-fixture")
+                if any(g["gen"] for g in pre[:j]):
+                    f.add("pre_run-setup-fails-after-a-pre_run-generator-fixture")
     for fx in project["fixtures"]:
         f.add("fx-" + fx["scope"])
         if fx["gen"]:
